@@ -41,79 +41,134 @@ def extract():
     body = whole[b0 + 1:b1 - 1]
     off = b0 + 1
 
-    spawn = _one(r"let\s+(\w+)\s*=\s*(AbortOnDrop\s*\(\s*)?tokio::spawn\s*\(\s*writer_task\s*\(", body, "writer spawn")
-    writer_var, wrapped = spawn.group(1), bool(spawn.group(2))
-    guard = _one(r"let\s+(\w+)\s*=\s*DisconnectGuard\s*\{", body, "DisconnectGuard construction")
-    guard_named = guard.group(1) != "_"
-    h1 = _one(r"for\s+hook\s+in\s+config\.on_connect\.iter\(\)", body, "plain connect-hook loop")
-    h2 = _one(r"for\s+hook\s+in\s+config\.on_connect_ctx\.iter\(\)", body, "handshake connect-hook loop")
-    rd = _one(r"\breader_task\s*\(", body, "reader_task call")
-    sig = _one(r"\bshutdown_tx\.send\s*\(", body, "shutdown signal")
-    aw = _one(r"\b" + re.escape(writer_var) + r"\.await\b", body, "writer await")
-    sel = re.search(r"tokio::select!\s*\{", body)
-    if not sel: raise ExtractError("select! over the reader not found")
-    sel_end = match_brace(body, sel.end() - 1)
-    if not (sel.start() < rd.start() < sel_end): raise ExtractError("reader_task is not an arm of the select!")
-    if not re.search(r"conn_token\.cancelled\(\)", body[sel.start():sel_end]): raise ExtractError("select! has no cancelled() arm")
-    # each loop body calls the hook
-    for h, nm in ((h1, "plain"), (h2, "ctx")):
-        lb = body.find("{", h.end())
-        if "hook(" not in body[lb:match_brace(body, lb)]: raise ExtractError(f"{nm} connect loop does not call hook(")
+    # ---- anchors inside handle_connection_with_config.  An anchor that cannot be located (moved into a closure
+    # or a spawned task, duplicated, replaced by another construct) makes every fact that depends on it FALSE:
+    # the structure the proofs are about is no longer visibly there.  Only a missing function is "unknown source"
+    # (ExtractError -> committed defaults, correspondence only).
+    unrecognised = []
 
-    try:
-        blk_s, blk_e = _enclosing_block(body, guard.start())
-        in_block = (guard_named and blk_s < h1.start() < blk_e and blk_s < h2.start() < blk_e and blk_s < rd.start() < blk_e
-                    and blk_e <= sig.start() and guard.start() < rd.start())
-    except ExtractError:
-        in_block = False      # the guard is a local of the function body itself
+    def anchor(rx, what):
+        ms = list(re.finditer(rx, body))
+        if len(ms) != 1:
+            unrecognised.append(f"{what}: {len(ms)} occurrences")
+            return None
+        return ms[0]
 
-    dimpl = impl_block(whole, r"impl\s+Drop\s+for\s+DisconnectGuard\s*\{")
-    dbody = fn_body(dimpl, "drop")
-    c = re.search(r"self\.cancel\.cancel\s*\(\s*\)", dbody)
-    l = re.search(r"for\s+hook\s+in\s+self\.hooks\.iter\(\)", dbody)
-    if not l: raise ExtractError("DisconnectGuard::drop: hook loop not found")
-    lb = dbody.find("{", l.end())
-    if "hook(self.peer_id)" not in re.sub(r"\s+", "", dbody[lb:match_brace(dbody, lb)]): raise ExtractError("DisconnectGuard::drop: loop does not call hook(self.peer_id)")
-    if not c: raise ExtractError("DisconnectGuard::drop: cancel() call not found")
+    LOOP = r"(?:for\s+hook\s+in\s+(?:&\*?\s*)?config\.%s(?:\.iter\(\)|\.as_slice\(\)|\.as_ref\(\))?\s*\{|config\.%s\.iter\(\)\.for_each\s*\()"
+    spawn = anchor(r"let\s+(\w+)\s*=\s*(AbortOnDrop(?:::new)?\s*\(\s*)?tokio::(?:task::)?spawn\s*\(\s*writer_task\s*\(", "writer spawn")
+    guard = anchor(r"let\s+(\w+)\s*=\s*DisconnectGuard\s*(?:\{|::new\s*\()", "DisconnectGuard construction")
+    h1 = anchor(LOOP % ("on_connect", "on_connect"), "plain connect-hook loop")
+    h2 = anchor(LOOP % ("on_connect_ctx", "on_connect_ctx"), "handshake connect-hook loop")
+    rd = anchor(r"\breader_task\s*\(", "reader_task call")
+    sig = anchor(r"\bshutdown_tx\.send\s*\(", "shutdown signal")
+    writer_var = spawn.group(1) if spawn else None
+    wrapped = bool(spawn and spawn.group(2))
+    aw = anchor(r"\b" + re.escape(writer_var) + r"\.await\b", "writer await") if writer_var else None
+    guard_named = bool(guard) and guard.group(1) != "_"
 
-    abort_impl = False
-    mm = re.search(r"impl\s*<\s*T\s*>\s*Drop\s+for\s+AbortOnDrop\s*<\s*T\s*>\s*\{", whole)
-    if mm:
+    def pos(*ms):
+        if any(m is None for m in ms): raise ExtractError("anchor missing")
+        return [m.start() for m in ms]
+
+    def fact(f):
+        try:
+            return bool(f())
+        except Exception as ex:        # pessimistic: an unlocatable structure is not a harmless one
+            unrecognised.append(f"{type(ex).__name__}: {ex}")
+            return False
+
+    def f_writer_before_guard():
+        s, g = pos(spawn, guard); return s < g
+
+    def f_guard_before_hooks():
+        g, a, b_ = pos(guard, h1, h2); return guard_named and g < min(a, b_)
+
+    def f_hooks_before_reader():
+        a, b_, r, s, w = pos(h1, h2, rd, sig, aw)
+        sel = re.search(r"tokio::select!\s*\{", body)
+        sel_end = match_brace(body, sel.end() - 1)
+        if not (sel.start() < r < sel_end): raise ExtractError("reader_task is not an arm of the select!")
+        if not re.search(r"conn_token\.cancelled\(\)", body[sel.start():sel_end]): raise ExtractError("select! has no cancelled() arm")
+        for h in (h1, h2):                 # each loop body calls the hook, synchronously
+            lb = body.find("{", h.start()) if "for_each" not in h.group(0) else body.find("(", h.end() - 1)
+            seg = body[lb:match_brace(body, lb)] if body[lb] == "{" else body[lb:lb + 200]
+            if "hook(" not in seg: raise ExtractError("connect loop does not call hook(")
+            if re.search(r"\bspawn(_blocking)?\s*\(", seg): raise ExtractError("connect loop spawns")
+        return max(a, b_) < r and a < b_ and s < w and r < s
+
+    def f_guard_in_block():
+        g, a, b_, r, s = pos(guard, h1, h2, rd, sig)
+        try:
+            blk_s, blk_e = _enclosing_block(body, g)
+        except ExtractError:
+            return False                   # the guard is a local of the function body itself
+        return guard_named and blk_s < a < blk_e and blk_s < b_ < blk_e and blk_s < r < blk_e and blk_e <= s and g < r
+
+    def f_cancel_before_hooks():
+        dimpl = impl_block(whole, r"impl\s+Drop\s+for\s+DisconnectGuard\s*\{")
+        dbody = fn_body(dimpl, "drop")
+        c = re.search(r"self\.cancel\.cancel\s*\(\s*\)", dbody)
+        l = re.search(r"for\s+hook\s+in\s+(?:&\*?\s*)?self\.hooks(?:\.iter\(\)|\.as_slice\(\))?\s*\{", dbody)
+        if not l or not c: raise ExtractError("DisconnectGuard::drop: cancel() or the hook loop not found")
+        if re.search(r"\.rev\(\)", dbody): raise ExtractError("DisconnectGuard::drop iterates in reverse")
+        lb = dbody.find("{", l.start())
+        if "hook(self.peer_id)" not in re.sub(r"\s+", "", dbody[lb:match_brace(dbody, lb)]): raise ExtractError("loop does not call hook(self.peer_id)")
+        if re.search(r"\bif\b|\bpanicking\b|\breturn\b", dbody[:l.start()]): raise ExtractError("DisconnectGuard::drop: conditional before the hook loop")
+        return c.start() < l.start()
+
+    def f_abort_on_drop():
+        mm = re.search(r"impl\s*<\s*T\s*>\s*Drop\s+for\s+AbortOnDrop\s*<\s*T\s*>\s*\{", whole)
         ab = fn_body(whole[mm.start():match_brace(whole, mm.end() - 1)], "drop")
-        abort_impl = bool(re.search(r"self\.0\.abort\s*\(\s*\)", ab))
+        return wrapped and writer_var != "_" and bool(re.search(r"self\.0\.abort\s*\(\s*\)", ab))
 
-    # the handshake's path check: `request.uri().path() == self.expected` guarding the only `Ok(response)`,
-    # and the three branches of normalize_path
-    vimpl = impl_block(whole, r"impl\s+Callback\s+for\s+WebSocketPathValidator\s*\{")
-    vb = re.sub(r"\s+", " ", fn_body(vimpl, "on_request"))
-    path_exact = bool(re.search(r"if request\.uri\(\)\.path\(\) == self\.expected \{", vb)) and vb.count("Ok(response)") == 1 \
-        and bool(re.search(r"\} else \{ Err\(path_not_found_response\(request\)\) \}", vb))
-    nb = re.sub(r"\s+", " ", fn_body(whole, "normalize_path"))
-    norm_form = bool(re.fullmatch(
-        r' ?if path\.is_empty\(\) \|\| path == "\s*" \{ "\s*"\.to_string\(\) \} else if path\.starts_with\(\' \'\) \{ path\.trim_end_matches\(\' \'\)\.to_string\(\) \} else \{ format!\("\s*", path\.trim_end_matches\(\' \'\)\) \} ?', nb))
-    # the literals are blanked by strip(); read them from the raw source
-    raw = read(SRC)
-    rn = raw[raw.index("fn normalize_path"):]
-    rn = rn[:rn.index("\n}\n") + 3]
-    norm_lits = rn.count("'/'") == 3 and '"/".to_string()' in rn and 'path == "/"' in rn and 'format!("/{}"' in rn
-    # accept_and_serve: exactly one report per outcome
-    ab = re.sub(r"\s+", " ", fn_body(whole, "accept_and_serve"))
-    one_report = ab.count("self.report_error(") == 2 and "ConnectionError::Connection(err)" in ab and "ConnectionError::Handshake(err)" in ab
+    def f_path_exact():
+        vimpl = impl_block(whole, r"impl\s+Callback\s+for\s+WebSocketPathValidator\s*\{")
+        vb = re.sub(r"\s+", " ", fn_body(vimpl, "on_request"))
+        return bool(re.search(r"if (?:request\.uri\(\)\.path\(\) == self\.expected|self\.expected == request\.uri\(\)\.path\(\)) \{", vb)) \
+            and vb.count("Ok(response)") == 1 and bool(re.search(r"\} else \{ Err\(path_not_found_response\(request\)\) \}", vb))
+
+    def f_norm():
+        nb = re.sub(r"\s+", " ", fn_body(whole, "normalize_path"))
+        norm_form = bool(re.fullmatch(
+            r' ?if path\.is_empty\(\) \|\| path == "\s*" \{ "\s*"\.to_string\(\) \} else if path\.starts_with\(\' \'\) \{ path\.trim_end_matches\(\' \'\)\.to_string\(\) \} else \{ format!\("\s*", path\.trim_end_matches\(\' \'\)\) \} ?', nb))
+        raw = read(SRC)                     # the literals are blanked by strip(); read them from the raw source
+        rn = raw[raw.index("fn normalize_path"):]
+        rn = rn[:rn.index("\n}\n") + 3]
+        return norm_form and rn.count("'/'") == 3 and '"/".to_string()' in rn and 'path == "/"' in rn and 'format!("/{}"' in rn
+
+    def f_one_report():
+        ab = re.sub(r"\s+", " ", fn_body(whole, "accept_and_serve"))
+        return ab.count("report_error(") == 2 and "ConnectionError::Connection(err)" in ab and "ConnectionError::Handshake(err)" in ab
+
+    def f_fetch_add():
+        return bool(re.search(r"let\s+peer_id_value\s*=\s*config\s*\.\s*peer_id_counter\s*\.\s*fetch_add\(\s*1\s*,", body)) \
+            and not re.search(r"peer_id_counter\s*\.\s*(store|load|swap|compare_exchange|fetch_update)", body)
+
+    def f_appended():
+        wb = re.sub(r"\s+", " ", fn_body(whole, "with_peer_registry"))
+        return bool(re.search(r"self\.on_peer_connect\(move \|peer\| insert_registry\.insert\(peer\)\) \.on_peer_disconnect\(move \|id\| \{ remove_registry\.remove\(id\); \}\)", wb)) \
+            and ".insert(" not in wb.replace("insert_registry.insert(peer)", "") \
+            and all(f"self.{chain}.push(" in fn_body(whole, fn) and ".insert(" not in fn_body(whole, fn)
+                    for chain, fn in (("on_connect", "on_peer_connect"), ("on_disconnect", "on_peer_disconnect"), ("on_connect_ctx", "on_peer_connect_with_handshake")))
 
     src = read(SRC)
+    line_of = lambda m: _line(src, off + m.start()) if m else "?"
     facts = {
-        "writerBeforeGuard": spawn.start() < guard.start(),
-        "guardBeforeHooks": guard_named and guard.start() < min(h1.start(), h2.start()),
-        "guardInReaderBlock": bool(in_block),
-        "hooksBeforeReader": max(h1.start(), h2.start()) < rd.start() and h1.start() < h2.start() and sig.start() < aw.start() and rd.start() < sig.start(),
-        "cancelBeforeHooks": c.start() < l.start(),
-        "abortOnDrop": wrapped and abort_impl and writer_var != "_",
-        "pathCheckExact": path_exact,
-        "normalizeThreeBranches": norm_form and norm_lits,
-        "oneErrorReportPerOutcome": one_report,
-        "anchors": {"writer_spawn": f"{SRC}:{_line(src, off + spawn.start())}", "guard": f"{SRC}:{_line(src, off + guard.start())}",
-                    "connect_loops": f"{SRC}:{_line(src, off + h1.start())},{_line(src, off + h2.start())}",
-                    "reader": f"{SRC}:{_line(src, off + rd.start())}", "shutdown_signal": f"{SRC}:{_line(src, off + sig.start())}"},
+        "writerBeforeGuard": fact(f_writer_before_guard),
+        "guardBeforeHooks": fact(f_guard_before_hooks),
+        "guardInReaderBlock": fact(f_guard_in_block),
+        "hooksBeforeReader": fact(f_hooks_before_reader),
+        "cancelBeforeHooks": fact(f_cancel_before_hooks),
+        "abortOnDrop": fact(f_abort_on_drop),
+        "pathCheckExact": fact(f_path_exact),
+        "normalizeThreeBranches": fact(f_norm),
+        "oneErrorReportPerOutcome": fact(f_one_report),
+        "peerIdFetchAdd": fact(f_fetch_add),
+        "hooksInRegistrationOrder": fact(f_appended),
+        "unrecognised": unrecognised,
+        "anchors": {"writer_spawn": f"{SRC}:{line_of(spawn)}", "guard": f"{SRC}:{line_of(guard)}",
+                    "connect_loops": f"{SRC}:{line_of(h1)},{line_of(h2)}",
+                    "reader": f"{SRC}:{line_of(rd)}", "shutdown_signal": f"{SRC}:{line_of(sig)}"},
     }
     return facts
 
@@ -135,6 +190,10 @@ def render(f):
           f"def normalizeThreeBranches : Bool := {b(f['normalizeThreeBranches'])}",
           "/-- `accept_and_serve` calls `report_error` once in the handshake-error arm and once under `if let Err(err)` of the serve result -/",
           f"def oneErrorReportPerOutcome : Bool := {b(f['oneErrorReportPerOutcome'])}",
+          "/-- the connection's PeerId is `config.peer_id_counter.fetch_add(1, ..)` and the counter is not otherwise loaded/stored there -/",
+          f"def peerIdFetchAdd : Bool := {b(f['peerIdFetchAdd'])}",
+          "/-- every registrar pushes at the end of its chain and `with_peer_registry` registers through them: hooks run in registration order -/",
+          f"def hooksInRegistrationOrder : Bool := {b(f['hooksInRegistrationOrder'])}",
           "", "end Repe.Gen.Lifecycle"]
     return "\n".join(L) + "\n"
 
